@@ -51,7 +51,7 @@ def run(ctx):
          "in images of concurrent histories every directory counts as possibly moved once a cross-directory RENAME succeeded (loosens only the '..' clause there)"],
         pending=["the bridge from states of the block-level models to the IMAGES the checker reads is proved for OWNERSHIP (checker_ownership_is_the_pointer_tree: Fsck.owned on an image "
                  "= the non-null pointers of the model's tree, position by position; checker_one_owner_on_every_reachable_image: the image of every state reachable by mappings, truncations and "
-                 "reuse on any files passes chkOneOwner) and for POINTERS IN THE DATA REGION (checker_pointers_in_the_data_region_on_every_reachable_image: chkPtrs, given that the allocator's numbers lie there); the other clauses of the checker (bitmap = metadata + owned, sizes, directory slots, inode table) are proved layer by layer on their own "
+                 "reuse on any files passes chkOneOwner) and for POINTERS IN THE DATA REGION (checker_pointers_in_the_data_region_on_every_reachable_image: chkPtrs, given that the allocator's numbers lie there) and for SIZES (checker_sizes_on_the_image_of_files_in_bookkeeping: chkSizes from the bookkeeping invariant InoOK of every WRITE / READ / resize history); the other clauses of the checker (bitmap = metadata + owned, directory slots, names, inode table) are proved layer by layer on their own "
                  "representations (allocator_is_disk_plus_open_allocations, InoOK, directory_blocks_refine_the_slot_list, writing_one_inode_changes_no_other), not yet composed into the image"],
 
         partial=["for all histories / crash points: sampled, not proved"])
